@@ -57,9 +57,9 @@ fn batch_allowance(net: NetID, txs: &[Transaction]) -> Supply {
     let mut a: Supply = BTreeMap::new();
     for tx in txs {
         let h = tx.hash_nosigs();
-        if tx.kind == TxKind::Faucet {
-            // off-mainnet faucet (and the grandfathered one): its outputs and its fee
-            let _ = net;
+        let grandfathered = hex::encode(h.0 .0) == GRANDFATHERED_FAUCET;
+        if tx.kind == TxKind::Faucet && (net != NetID::Mainnet || grandfathered) {
+            // off-mainnet faucet (and the grandfathered one on mainnet): its outputs and its fee
             for o in &tx.outputs {
                 let d = if o.denom == Denom::NewCustom { Denom::Custom(h) } else { o.denom };
                 *a.entry(d).or_default() += BigInt::from(o.value.0);
